@@ -2,3 +2,6 @@ NOT_BUILT = {}
 chk("C06", "differential runtime monitor: value.* Int helpers and compiled Elk probes vs math/big reference over boundary-pool pairs (exhaustive) and seeded random operands",
     "Held on every operand pair explored (pool pairwise exhaustively + random 1..256-bit operands) at Go-API level for every helper the VM opcodes call, and on Elk-level probes through constant folder / typed / generic / method-call paths; exploration, not proof.",
     "Trusted: math/big as reference; shift counts |n|<=300 and exponents<=40 only; Elk-level sample smaller than Go-level.")
+chk("C07", "differential runtime monitor: value.* operators on Int8..UInt64/UInt and Float/Float64/Float32 vs Go sized-integer / IEEE arithmetic; compiled Elk probes (literal, typed, method-call)",
+    "Held on all Int8/UInt8 left operands x right pool (exhaustive in that bound), boundary + random values of wider types, every shift count -130..130 in every AnyInt member type, float pools and random bit patterns bit-for-bit; exploration.",
+    "Trusted: Go arithmetic as reference; float ** not compared; integer ** only for non-negative exponents.")
